@@ -239,6 +239,19 @@ class Ctx:
         % (module, cfg, r.distinct, r.generated, r.depth, r.wall))
     return r
 
+  def model_bg(self, module, cfg, **kw):
+    """Starts a design-level model run in the background (it does not depend on the code); joined
+    by join_models() / finish()."""
+    if not hasattr(self, "_bg"):
+      self._bg = []
+      self._bg_pool = ThreadPoolExecutor(max_workers=4)
+    self._bg.append(self._bg_pool.submit(self.model, module, cfg, **kw))
+
+  def join_models(self):
+    for f in getattr(self, "_bg", []):
+      f.result()
+    self._bg = []
+
   def _dump(self, r, module, cfg):
     p = os.path.join(self.work, "tlc_%s_%s.out" % (module, os.path.basename(cfg)))
     with open(p, "w") as f:
@@ -349,6 +362,7 @@ class Ctx:
 
   def finish(self, site_of=None, level="model_checking"):
     """Matches failures against the known findings, prints verdict lines, writes evidence."""
+    self.join_models()
     findings = load_findings()
     site_of = site_of or (lambda ev: ev.get("site", {}))
     known, viol = {}, []
